@@ -109,7 +109,52 @@ func (c *SeqCtx) State(key string) bool {
 
 type curCase struct {
 	ops []string
-	at  time.Time
+	at  time.Duration // aliveNow() when the case began
+}
+
+// The hang watchdogs do not read the wall clock: a machine that stands still for a while (a snapshot of the virtual
+// machine being taken, a disk that does not answer, a process that is not given a processor) makes every wall-clock
+// limit expire although nothing is blocked. aliveNow() is time during which this process demonstrably ran: a
+// goroutine wakes up every 100 ms and credits what has passed since its last wake-up, but never more than 200 ms - a
+// stall of minutes adds 200 ms. A case "hangs" when it has not returned after the limit in THAT time.
+var aliveNanos int64
+
+func init() {
+	go func() {
+		last := time.Now()
+		for {
+			time.Sleep(100 * time.Millisecond)
+			now := time.Now()
+			d := now.Sub(last)
+			if d > 200*time.Millisecond {
+				d = 200 * time.Millisecond
+			}
+			atomic.AddInt64(&aliveNanos, int64(d))
+			last = now
+		}
+	}()
+}
+
+func aliveNow() time.Duration { return time.Duration(atomic.LoadInt64(&aliveNanos)) }
+
+// waitAlive waits for done for at most limit of alive time; false means the limit passed and done is still not ready.
+func waitAlive(done <-chan struct{}, limit time.Duration) bool {
+	start := aliveNow()
+	for {
+		select {
+		case <-done:
+			return true
+		case <-time.After(250 * time.Millisecond):
+		}
+		if aliveNow()-start >= limit {
+			select {
+			case <-done:
+				return true
+			default:
+				return false
+			}
+		}
+	}
 }
 
 // Begin / End bracket the execution of one case, so that a case that never returns (a lock left behind, a wait for
@@ -119,7 +164,7 @@ func (c *SeqCtx) Begin(ops []string) {
 	if len(c.OpsPrefix) > 0 {
 		ops = append(append([]string{}, c.OpsPrefix...), ops...)
 	}
-	c.cur.Store(curCase{ops: ops, at: time.Now()})
+	c.cur.Store(curCase{ops: ops, at: aliveNow()})
 }
 
 // End marks the current case as finished.
@@ -136,14 +181,19 @@ func (c *SeqCtx) watchHangs(start time.Time) {
 	for {
 		time.Sleep(time.Second)
 		cc, _ := c.cur.Load().(curCase)
-		if cc.ops == nil || time.Since(cc.at) < seqHangLimit || seqHangHook == nil {
+		if cc.ops == nil || aliveNow()-cc.at < seqHangLimit || seqHangHook == nil {
+			continue
+		}
+		// (once more after a moment: the case may be returning just now)
+		time.Sleep(time.Second)
+		if again, _ := c.cur.Load().(curCase); again.ops == nil || again.at != cc.at {
 			continue
 		}
 		c.st.WallS = time.Since(start).Seconds()
 		res := &seqResult{Scenario: c.job.Name, Confirmed: 1}
 		res.Stats = &seqStatsOut{Stats: c.st}
 		res.Violation = &Violation{Property: c.job.Property, Scenario: c.job.Name, Clause: "hang",
-			Detail: fmt.Sprintf("the case did not return within %v (cases take milliseconds): some call is waiting for good - a lock that was never released, a channel nobody serves", seqHangLimit),
+			Detail: fmt.Sprintf("the case did not return within %v of running time (cases take milliseconds): some call is waiting for good - a lock that was never released, a channel nobody serves", seqHangLimit),
 			Ops:    cc.ops, Params: map[string]string{"engine": "seq", "job": c.job.Name}}
 		seqHangHook(res)
 		return
